@@ -255,6 +255,7 @@ impl<K: El, V: El> Mon<K, V> {
                 let delta = op.v;
                 let mut log: Vec<(u64, u64, u64, u64)> = Vec::new();
                 m!(out, self.map.retain(|kk, v| {
+                    visited_push(kk.val());
                     tick(Cb::Closure);
                     log.push((kk.val(), kk.id(), v.val(), v.id()));
                     if delta != 0 {
